@@ -20,8 +20,8 @@ use serde_json::{Value as J, json};
 
 use crate::util::{diags_json, guarded, quiet_panics, response_channel, send, value_json};
 
-const MAIN_ARENA: usize = 64 << 20;
-const FRAME_ARENA: usize = 32 << 20;
+const MAIN_ARENA: usize = 512 << 20;
+const FRAME_ARENA: usize = 512 << 20;
 const SCRATCH_ARENA: usize = 256 << 20;
 
 pub fn stmt_start(stmt: StmtRef) -> usize {
